@@ -634,7 +634,24 @@ fn judge(c: &Case, o: &Outcome) -> Option<String> {
     if o.hang {
         return Some(format!("hang: no batch moved for 10-40 s while outputs {:?} were still being read, and the same configuration hung again when re-run", (0..c.nout).filter(|&p| o.status[p] == "never" && c.drops[p] != -1).collect::<Vec<_>>()));
     }
-    let (exp, origin, _) = expected(c);
+    let (mut exp, origin, route) = expected(c);
+    if c.scheme == "rr" {
+        // the property does not fix the starting output of an input: take it from the first delivered row
+        let delivered: HashMap<i64, usize> = o.out.iter().enumerate().flat_map(|(p, rs)| rs.iter().map(move |r| (r.id, p))).collect();
+        for i in 0..c.inputs.len() {
+            let doc_start = if c.preserve_order && c.inputs.len() > 1 { 0 } else { (i * c.nout) / c.inputs.len() };
+            let obs = route.iter().filter(|r| r["i"].as_u64() == Some(i as u64 + 1)).find_map(|r| {
+                delivered.get(&r["id"].as_i64().unwrap()).map(|p| (p + c.nout - (r["bk"].as_u64().unwrap() as usize % c.nout)) % c.nout)
+            });
+            if let Some(st) = obs {
+                if st != doc_start {
+                    for r in route.iter().filter(|r| r["i"].as_u64() == Some(i as u64 + 1)) {
+                        exp.insert(r["id"].as_i64().unwrap(), (st + r["bk"].as_u64().unwrap() as usize) % c.nout);
+                    }
+                }
+            }
+        }
+    }
     let has_err = c.inputs.iter().any(|p| p.iter().any(|it| matches!(it, Item::Err)));
     let resource = o.status.iter().any(|s| s == "resource");
     let mut seen: HashSet<i64> = HashSet::new();
@@ -927,6 +944,7 @@ fn run_part_case(v: &Value) -> (Option<String>, Value) {
         for i in 0..nrows {
             match got.get(&(i as i64)) {
                 None => return (Some(format!("{mode}: row {i} (key {:?}) was not emitted", colv[i])), json!(got)),
+                Some(&p) if scheme == "rr" && (p + n - got[&0]) % n == (expect[i] + n - expect[0]) % n => {}
                 Some(&p) if p != expect[i] => return (Some(format!("{mode}: row {i} (key {:?}) routed to partition {p}; the specification's {scheme} rule gives {}", colv[i], expect[i])), json!(got)),
                 Some(&p) if p >= n => return (Some(format!("{mode}: partition index {p} out of range")), json!(got)),
                 _ => {}
@@ -1103,7 +1121,13 @@ pub fn main() {
             }
             if o.skipped.is_none() && !o.hang {
                 let (_, _, route) = expected(c);
-                traces.push(json!({"scheme": c.scheme, "n": c.nout, "nin": c.inputs.len(), "po": c.preserve_order && c.inputs.len() > 1,
+                let delivered: HashMap<i64, usize> = o.out.iter().enumerate().flat_map(|(p, rs)| rs.iter().map(move |r| (r.id, p))).collect();
+                let rrstart: Vec<usize> = (0..c.inputs.len())
+                    .map(|i| {
+                        route.iter().filter(|r| r["i"].as_u64() == Some(i as u64 + 1)).find_map(|r| delivered.get(&r["id"].as_i64().unwrap()).map(|p| (p + c.nout - (r["bk"].as_u64().unwrap() as usize % c.nout)) % c.nout)).unwrap_or(0)
+                    })
+                    .collect();
+                traces.push(json!({"scheme": c.scheme, "n": c.nout, "nin": c.inputs.len(), "rrstart": rrstart, "po": c.preserve_order && c.inputs.len() > 1,
                                    "splits": c.splits.iter().map(|sp| sp.iter().map(|x| json!({"nul": x.is_none(), "v": x.unwrap_or(0)})).collect::<Vec<_>>()).collect::<Vec<_>>(),
                                    "desc": c.desc, "nf": c.nulls_first,
                                    "rows": route.iter().map(|r| { let mut r = r.clone(); r["key"] = Value::Array(r["key"].as_array().unwrap().iter().map(|x| json!({"nul": x.is_null(), "v": x.as_i64().unwrap_or(0)})).collect()); r }).collect::<Vec<_>>(),
